@@ -35,13 +35,17 @@ def run(c):
         "C18_lists_exactly_failed_under_original_addresses assumes RecordsRoot (the rewrite map names the sender's address directly): proved to be what ONE pipeline level produces (C18_one_pipeline_records_root); two nested levels violate it (C18_two_level_rewriting_counterexample, KF-C18-1)",
         "byte-level well-formedness of the MIME serialisation (go-message multipart writer, header folding) is not modelled: established per generated report by an independent stdlib parse (sampling) — C18_report_structure_partial is the proved part",
         "the theorems about attempt/emitDSN hold for an ARBITRARY per-recipient error function of the attempt; which error value Queue.deliver attributes to whom is mirrored by deliverErrs (Start / RCPT / DATA or per-recipient status / Commit), proved to have the classes of C01's deliver (deliverErrs_cls) and driven against the real queue with a scripted target failing at every stage",
+        "the flattening of an error text into Diagnostic-Code (dsn.go fieldText, after fix 68bbb68) is Dsn.oneLine, total over all code-point strings (C18_flattened_text_has_no_line_break, C18_flattened_text_has_no_control); strings that are not valid UTF-8 and single lines over 900 octets are outside the generators (the human-readable part copies the text raw)",
         "msgpipeline.AddRcpt is outside the anchors: its recording of OriginalRcpts (three modifier stages, 1-to-N, nested pipelines) is the model's Rules/frontSteps/recordAll, tied by running the REAL pipeline(s) in front of the real queue; the scripted part is the modifier's rewrite table only",
     ]
     return c.finish(
         rule="(gen) dsn.GenerateDSN called directly on generated envelopes / reporting-MTA data / 0-4 recipient records (valid and invalid: empty or unconvertible addresses and host names, "
-        "missing action, zero status class, *smtp.SMTPError / other / nil diagnostics, multi-line, non-ASCII, long and whitespace-heavy texts), both flavours, 11 original headers; "
+        "missing action, zero status class, *smtp.SMTPError / other / nil diagnostics, multi-line, non-ASCII, long and whitespace-heavy texts, texts with bare CR, CR CR LF, LF CR, NUL, "
+        "other C0 controls, DEL, C1 / Unicode line separators, white space at either end or nothing else, a 300-octet word, 700-octet lines, 2.6 kB multi-line replies), both flavours, 11 original headers; "
         "(q) the REAL queue (spool, time wheel, 1-3 attempts, JSON round trip of the metadata between attempts) behind — in 60% of the cases — a REAL msgpipeline.MsgPipeline built by msgpipeline.New "
-        "(global / per-source / per-destination rewriting modifiers, aliases expanding 1-to-3, optionally a nested reroute pipeline; the rewritten recipients anywhere in the transaction, the sender "
+        "(global / per-source / per-destination rewriting modifiers, aliases expanding 1-to-3, optionally a nested reroute pipeline; 38% of the rewriting steps change ONLY THE SPELLING of the recipient - "
+        "letter case of local part / domain / both, NFC / NFD, A-labels / U-labels, trailing dot - alone, chained with real rewrites in the same or the nested pipeline, or taken by the nested pipeline alone; "
+        "the rewritten recipients anywhere in the transaction, the sender "
         "rewritten by the pipeline) or handed to Queue.Start directly with a prepared OriginalRcpts (0-3 levels), on a scripted atomic or PartialDelivery target answering every stage: Start refused, "
         "1-6 recipients refused at RCPT, the message then refused at DATA (or per accepted recipient) or at Commit, error values "
         "generated from maddy's wrapping primitives (88% coherent, incl. annotations without enhanced code), senders null / rewritten / IDN / EAI, recipients incl. sibling "
